@@ -194,7 +194,10 @@ def patch_sets(chk, prop):
     misses = set()
     try:
         with open(os.path.join(sd, "KNOWN_MISSES.json")) as f:
-            misses = set(json.load(f)["undetected"])
+            km = json.load(f)
+            # documented: value logic no rule decides; changes of the command-line tool only (reported by C20, not by the library
+            # property they were written against); seeds the suite itself kills once its comparisons are not vacuous
+            misses = set(km["undetected"]) | set(km.get("cli_only_reported_by_C20", {})) | set(km.get("killed_by_the_suite_when_not_vacuous", {}))
     except (OSError, ValueError, KeyError):
         pass
     SR = load(os.path.join(sd, "run.py"), "verif_seeded_run")
